@@ -1,7 +1,8 @@
 (** C01 — ICE converges: proved part (role resolution).  Convergence to READY on mirrored pairs under every fair
     schedule is NOT a theorem: it is explored on the deterministic simulator (DESIGN.md). *)
 From Coq Require Import ZArith List Bool.
-From Nice Require Import Agent.RoleModel Agent.RoleProofs.
+From Coq Require Import Permutation.
+From Nice Require Import Agent.RoleModel Agent.RoleProofs Agent.SelectModel Agent.SelectProofs.
 Import ListNotations.
 Local Open Scope Z_scope.
 
@@ -26,3 +27,19 @@ Theorem C01_one_exchange_resolves_a_conflict_partial : forall ta tb ra, tb < ta 
   (let '(s1, out) := step ta tb s0 (emit_b tb s0) in
    let s2 := match out with m :: _ => fst (step ta tb s1 m) | [] => s1 end in a_ctl s2 = true /\ b_ctl s2 = false).
 Proof. exact conflict_exchange_resolves. Qed.
+
+(** the selected pair is only ever replaced by a nominated pair of strictly higher priority *)
+Theorem C01_selected_pair_only_improves_partial : forall l s p, p_prio s <= p_prio (update (fold_left update l s) p) /\
+  (update (fold_left update l s) p <> fold_left update l s -> p_prio (fold_left update l s) < p_prio p).
+Proof. exact selected_only_improves. Qed.
+
+(** once quiet, the selected pair is a nominated pair of maximal priority ... *)
+Theorem C01_selected_pair_is_the_best_nominated_partial : forall l, l <> [] -> (forall q, In q l -> 0 < p_prio q) ->
+  In (select l) l /\ forall q, In q l -> p_prio q <= p_prio (select l).
+Proof. exact select_is_max. Qed.
+
+(** ... and with pairwise distinct priorities it does not depend on the order in which the nominations arrived: two agents holding the
+    same (mirrored) set of nominated pairs, whose priorities agree by the symmetric formula of C15, select mirror images *)
+Theorem C01_selection_is_order_independent_partial : forall l l', Permutation l l' -> l <> [] -> (forall q, In q l -> 0 < p_prio q) ->
+  (forall a b, In a l -> In b l -> p_prio a = p_prio b -> a = b) -> select l = select l'.
+Proof. exact select_order_independent. Qed.
